@@ -27,6 +27,7 @@ type FnIndex struct {
 	// slices that exist only for the analysis: the part of s an index loop visits
 	virtSlices map[string]ssa.Value
 	allocNames map[*ssa.Alloc]string
+	flagCache  map[*ssa.Function][]*ssa.Alloc
 	// fields of local struct variables as cells of their own (fieldCell)
 	fieldCells   map[*ssa.Alloc]map[int]*ssa.Alloc
 	escapedCells map[*ssa.Alloc]bool
@@ -1798,6 +1799,266 @@ func (x *FnIndex) possibleValues(v ssa.Value, depth int) []PVal {
 	return out
 }
 
+// leafValues is PossibleValues that keeps, for a value that went through
+// several variables, the store that first put it into a variable.
+func (x *FnIndex) leafValues(v ssa.Value, depth int) []PVal {
+	v = x.Origin(v)
+	u, ok := v.(*ssa.UnOp)
+	if !ok || u.Op != token.MUL || depth > 6 {
+		return []PVal{{V: v}}
+	}
+	al, ok := x.ResolveAddr(u.X).(*ssa.Alloc)
+	if !ok {
+		return []PVal{{V: v}}
+	}
+	var out []PVal
+	if al.Parent() == u.Parent() {
+		defs, zero := x.reachingStores(u, al)
+		for _, d := range defs {
+			for _, pv := range x.leafValues(d.Val, depth+1) {
+				if pv.Store == nil {
+					pv.Store = d
+				}
+				out = append(out, pv)
+			}
+		}
+		if zero {
+			out = append(out, PVal{})
+		}
+		for _, st := range x.stores[al] {
+			if st.Parent() != u.Parent() {
+				out = append(out, PVal{V: x.Origin(st.Val), Outside: true, Store: st})
+			}
+		}
+		return out
+	}
+	for _, st := range x.stores[al] {
+		out = append(out, PVal{V: x.Origin(st.Val), Outside: st.Parent() != u.Parent(), Store: st})
+	}
+	if len(out) == 0 {
+		out = append(out, PVal{})
+	}
+	return out
+}
+
+// ValuesAt lists what v (an operand of instruction at) may be when at executes:
+// PossibleValues, without the values that cannot get there. A value put into a
+// variable by a store is followed from that store, through copies into other
+// variables, along the paths that the flag variables allow (pathExistsFlags);
+// it counts only if some such path reaches at with v holding it. This is what
+// separates `return gw` under `if ok` from the `gw = nil; ok = false` of a miss.
+func (x *FnIndex) ValuesAt(v ssa.Value, at ssa.Instruction) []PVal {
+	fn := at.Parent()
+	var out []PVal
+	for _, pv := range x.leafValues(v, 0) {
+		if pv.Store == nil || pv.Outside || pv.Store.Parent() != fn {
+			out = append(out, pv)
+			continue
+		}
+		if x.tokenReaches(fn, pv.Store, at, v) {
+			out = append(out, pv)
+		}
+	}
+	return out
+}
+
+// tokenReaches: the value stored by `from` can be what `use` holds when `at`
+// executes. The search follows the value through loads, stores into other local
+// variables and conversions, forgets a variable when something else is stored
+// into it, and prunes branches on flag variables like pathExistsFlags.
+func (x *FnIndex) tokenReaches(fn *ssa.Function, from *ssa.Store, at ssa.Instruction, use ssa.Value) bool {
+	flags := x.flagCells(fn)
+	fidx := map[*ssa.Alloc]int{}
+	for i, f := range flags {
+		fidx[f] = i
+	}
+	pow := func(i int) int {
+		p := 1
+		for ; i > 0; i-- {
+			p *= 3
+		}
+		return p
+	}
+	get := func(st, i int) int { return (st / pow(i)) % 3 }
+	set := func(st, i, v int) int { return st - get(st, i)*pow(i) + v*pow(i) }
+	cellOf := func(a ssa.Value) *ssa.Alloc {
+		if al, ok := a.(*ssa.Alloc); ok {
+			return al
+		}
+		al, _ := x.ResolveAddr(a).(*ssa.Alloc)
+		return al
+	}
+	c0 := cellOf(from.Addr)
+	if c0 == nil {
+		return true
+	}
+	type tok struct {
+		cells map[*ssa.Alloc]bool
+		vals  map[ssa.Value]bool
+	}
+	sig := func(t tok) string {
+		var parts []string
+		for c := range t.cells {
+			parts = append(parts, fmt.Sprintf("c%p", c))
+		}
+		for v := range t.vals {
+			parts = append(parts, fmt.Sprintf("v%p", v))
+		}
+		sort.Strings(parts)
+		return strings.Join(parts, ",")
+	}
+	clone := func(t tok) tok {
+		n := tok{map[*ssa.Alloc]bool{}, map[ssa.Value]bool{}}
+		for c := range t.cells {
+			n.cells[c] = true
+		}
+		for v := range t.vals {
+			n.vals[v] = true
+		}
+		return n
+	}
+	type node struct {
+		b  *ssa.BasicBlock
+		i  int
+		st int
+		t  tok
+	}
+	seen := map[string]bool{}
+	start := tok{map[*ssa.Alloc]bool{c0: true}, map[ssa.Value]bool{}}
+	work := []node{{from.Block(), instrIdx(from) + 1, 0, start}}
+	steps := 0
+	for len(work) > 0 {
+		n := work[len(work)-1]
+		work = work[:len(work)-1]
+		st, t := n.st, clone(n.t)
+		loaded := map[ssa.Value]int{}
+		for i := n.i; i < len(n.b.Instrs); i++ {
+			in := n.b.Instrs[i]
+			steps++
+			if steps > 400000 {
+				return true // give up: assume it can
+			}
+			if in == at {
+				if t.vals[use] {
+					return true
+				}
+				if u, ok := use.(*ssa.UnOp); ok && u.Op == token.MUL {
+					if c := cellOf(u.X); c != nil && t.cells[c] && false {
+						return true
+					}
+				}
+			}
+			switch s := in.(type) {
+			case *ssa.Store:
+				c := cellOf(s.Addr)
+				if c != nil {
+					if t.vals[s.Val] {
+						t.cells[c] = true
+					} else {
+						delete(t.cells, c)
+					}
+					if al, ok := s.Addr.(*ssa.Alloc); ok {
+						if fi, isF := fidx[al]; isF {
+							if bv, isC := constBool(s.Val); isC {
+								if bv {
+									st = set(st, fi, 1)
+								} else {
+									st = set(st, fi, 2)
+								}
+							} else if lv, isL := loaded[s.Val]; isL {
+								st = set(st, fi, lv)
+							} else {
+								st = set(st, fi, 0)
+							}
+						}
+					}
+				}
+			case *ssa.UnOp:
+				if s.Op == token.MUL {
+					if c := cellOf(s.X); c != nil && t.cells[c] {
+						t.vals[s] = true
+					} else {
+						delete(t.vals, s)
+					}
+					if al, ok := s.X.(*ssa.Alloc); ok {
+						if fi, isF := fidx[al]; isF {
+							loaded[s] = get(st, fi)
+						}
+					}
+				}
+			case *ssa.ChangeType:
+				if t.vals[s.X] {
+					t.vals[s] = true
+				} else {
+					delete(t.vals, s)
+				}
+			case *ssa.ChangeInterface:
+				if t.vals[s.X] {
+					t.vals[s] = true
+				} else {
+					delete(t.vals, s)
+				}
+			case *ssa.MakeInterface:
+				if t.vals[s.X] {
+					t.vals[s] = true
+				} else {
+					delete(t.vals, s)
+				}
+			case *ssa.Phi:
+				any := false
+				for _, e := range s.Edges {
+					if t.vals[e] {
+						any = true
+					}
+				}
+				if any {
+					t.vals[s] = true
+				} else {
+					delete(t.vals, s)
+				}
+			}
+		}
+		if len(t.cells) == 0 && len(t.vals) == 0 {
+			continue
+		}
+		only := -1
+		if len(n.b.Instrs) > 0 {
+			if iff, ok := n.b.Instrs[len(n.b.Instrs)-1].(*ssa.If); ok && len(n.b.Succs) == 2 {
+				cond, neg := iff.Cond, false
+				for {
+					u, isU := cond.(*ssa.UnOp)
+					if !isU || u.Op != token.NOT {
+						break
+					}
+					cond, neg = u.X, !neg
+				}
+				if v, ok := loaded[cond]; ok && v != 0 {
+					tv := v == 1
+					if neg {
+						tv = !tv
+					}
+					if tv {
+						only = 0
+					} else {
+						only = 1
+					}
+				}
+			}
+		}
+		for k, sc := range n.b.Succs {
+			if only >= 0 && k != only {
+				continue
+			}
+			key := fmt.Sprintf("%d|%d|%s", sc.Index, st, sig(t))
+			if !seen[key] {
+				seen[key] = true
+				work = append(work, node{sc, 0, st, t})
+			}
+		}
+	}
+	return false
+}
+
 func isConstNil(v ssa.Value) bool {
 	c, ok := v.(*ssa.Const)
 	return ok && c.Value == nil
@@ -2329,7 +2590,10 @@ func (x *FnIndex) lastLoad(v ssa.Value) ssa.Value {
 // flagCells lists the local bool variables of fn that are only ever assigned
 // the constants true and false (`found := false; ...; found = true`).
 func (x *FnIndex) flagCells(fn *ssa.Function) []*ssa.Alloc {
-	var out []*ssa.Alloc
+	if fc, ok := x.flagCache[fn]; ok {
+		return fc
+	}
+	var cands []*ssa.Alloc
 	for _, b := range fn.Blocks {
 		for _, in := range b.Instrs {
 			al, ok := in.(*ssa.Alloc)
@@ -2339,18 +2603,57 @@ func (x *FnIndex) flagCells(fn *ssa.Function) []*ssa.Alloc {
 			if bt, isB := al.Type().(*types.Pointer).Elem().Underlying().(*types.Basic); !isB || bt.Kind() != types.Bool {
 				continue
 			}
-			all := true
-			for _, st := range x.stores[al] {
-				if _, isC := constBool(st.Val); !isC || st.Parent() != fn {
-					all = false
-				}
+			cands = append(cands, al)
+		}
+	}
+	// a flag is assigned constants, or the value of another flag (`ok = found`)
+	isFlag := map[*ssa.Alloc]bool{}
+	for _, al := range cands {
+		isFlag[al] = true
+	}
+	for changed := true; changed; {
+		changed = false
+		for _, al := range cands {
+			if !isFlag[al] {
+				continue
 			}
-			if all && len(out) < 6 {
-				out = append(out, al)
+			for _, st := range x.stores[al] {
+				good := st.Parent() == fn
+				if _, isC := constBool(st.Val); !isC {
+					src := flagLoad(st.Val)
+					if src == nil || !isFlag[src] {
+						good = false
+					}
+				}
+				if !good {
+					isFlag[al] = false
+					changed = true
+					break
+				}
 			}
 		}
 	}
+	var out []*ssa.Alloc
+	for _, al := range cands {
+		if isFlag[al] && len(out) < 8 {
+			out = append(out, al)
+		}
+	}
+	if x.flagCache == nil {
+		x.flagCache = map[*ssa.Function][]*ssa.Alloc{}
+	}
+	x.flagCache[fn] = out
 	return out
+}
+
+// flagLoad: v is a plain read of a local variable; that variable.
+func flagLoad(v ssa.Value) *ssa.Alloc {
+	if u, ok := v.(*ssa.UnOp); ok && u.Op == token.MUL {
+		if al, ok := u.X.(*ssa.Alloc); ok {
+			return al
+		}
+	}
+	return nil
 }
 
 // pathExistsFlags is pathExistsEB that does not follow paths made impossible
@@ -2420,6 +2723,10 @@ func (x *FnIndex) pathExistsFlagsAt(fn *ssa.Function, b0 *ssa.BasicBlock, i0 int
 							} else {
 								st = set(st, fi, 2)
 							}
+						} else if lv, isL := loaded[t.Val]; isL {
+							st = set(st, fi, lv)
+						} else {
+							st = set(st, fi, 0)
 						}
 					}
 				}
